@@ -7,11 +7,26 @@ import os
 import sys
 
 
+_SHARED = []
+
+
+def shared_config():
+    if not _SHARED:
+        from coco.b09.configs import CompilerConfigs, StringConfigs
+        _SHARED.append(CompilerConfigs(string_configs=StringConfigs(strname_to_size={"T$": 255})))
+    return _SHARED[0]
+
+
 def run_item(it):
     """One execution of the real code for one item -> SHA-256 of what it produced."""
     if it["kind"] == "convert":
         from vlib import harness
-        r = harness.convert(it["text"], **it["opts"])
+        opts = dict(it["opts"])
+        if it.get("shared_cfg"):
+            # one CompilerConfigs object handed to every conversion of this process (as a batch tool would): it is an
+            # input, so nothing a conversion does may change what the next one gets out of it
+            opts["compiler_configs"] = shared_config()
+        r = harness.convert(it["text"], **opts)
         data = r["out"] if r["ok"] else "EXC:" + str(r.get("exc"))
         return hashlib.sha256(data.encode("utf-8", "replace")).hexdigest()
     if it["kind"] == "cli":
